@@ -33,7 +33,7 @@ package api
 //@ func getIPAccessControlFunc$1
 //@   attr modular
 //@   assert-at return#3 loopback-only-by-its-text-form: ipStrS(resolvedIP(addr)) == "127.0.0.1" || ipStrS(resolvedIP(addr)) == "::1"
-//@   assert-at return#4 whitelisted-ip-matches: ipStrS(bytesval(ip)) == ipStrS(resolvedIP(addr)) && 0 <= #rangeindex + 1 && #rangeindex + 1 < len(allowedIPs) && ip == allowedIPs[#rangeindex + 1]
+//@   assert-at return#4 whitelisted-ip-matches: ipStrS(bytesval(ip)) == ipStrS(resolvedIP(addr)) && 0 <= #iter && #iter < len(allowedIPs) && ip == allowedIPs[#iter]
 //@   assert-at return#5 inside-an-enabled-lan: netHas(bytesval(rule.IP), bytesval(rule.Mask), resolvedIP(addr))
 //@   assert-at return#2 unresolvable-address-is-refused: !result
 //@   assert-at return#6 everything-else-is-refused: !result
